@@ -8,6 +8,8 @@ import HappyProofs.C13.Detect
 import HappyProofs.C13.PhiTick
 import HappyProofs.C13.NoDelegate
 import HappyProofs.C13.PropsDetect
+import HappyProofs.C13.PropsPhi
+import HappyProofs.C13.SchedCheck
 /-!
 C13 property theorems (statements about `Spec` predicates and model runs only).
 
@@ -32,6 +34,11 @@ C13 property theorems (statements about `Spec` predicates and model runs only).
   (and no "alive" update about `x`) is delivered to `a`.  The bound in probe ticks after a crash is
   `failure_detected_full` (with `crash_yields_quiet_run`, `round_robin_reaches`,
   `round_robin_between`, `failure_detected_row`, `failure_detected_within_crashes`) in `PropsDetect.lean`.
+* `failure_detected_by_phi` (`PropsPhi.lean`) — the phi path at run level for the concrete phi-accrual
+  model (`PhiDet`): after `crash x cx`, a live observer that had recorded a heartbeat from `x` does not
+  report `x` ALIVE once an action later than `cx + δ + m + Y·max(m, min_std) + interval` has happened —
+  no hypothesis on the detector's answers, both code variants, independent of the probe order.
+  `failure_detected_by_phi_partial` below is the one-tick lemma for an abstract `Detector`.
 * `no_delegate_detected`, `unacked_probe_dead_after_suspicion`, `lone_observer_detects`,
   `lone_observer_within_deadline` — clause 2 when nobody can relay an indirect probe (a pair,
   `indirect_probe_count = 0`, every other peer DEAD): the ack timeout sends nothing, still suspects and
